@@ -36,6 +36,8 @@ CLAIMED = {
          "static analysis: per-method map-effect summaries compared with a specification table", "DESIGN.md §5 C14"),
  "C15": ("Sound static decision of totality (no instruction of a non-Must accessor can panic; reflect preconditions implied on every path) and of faithfulness: each accessor's extracted decision table equals the documented one for every case (absent key, nil, the 12 numeric kinds, string, bool, []any, map[string]any, other slice kinds, other types), with Go's conversion of the asserted value as result and the variant's default/zero/panic otherwise; ToSlice summary as documented. Numeric results of Go's conversions are the specification.",
          "static analysis: may-panic scan + path-sensitive reflect-precondition check + decision-table extraction vs. specification table", "DESIGN.md §5 C15"),
+ "C16": ("Sound static decision that neither Bind can panic (reflect preconditions implied by path facts), that the identity copy happens exactly under type identity and copies the value itself, that otherwise json.Unmarshal receives exactly json.Marshal's output and the destination and both errors are returned, that invalid inputs end in errors, that Bind writes nothing but the destination, and that both Binds have the same outcome classes. encoding/json itself is the reference.",
+         "static analysis: may-panic scan + path-sensitive reflect-precondition and Marshal->Unmarshal provenance check + sibling comparison", "DESIGN.md §5 C16"),
  "C18": ("Sound static decision that every nil-error return of Run (single, batch, empty batch) carries a provably non-empty action.",
          "static analysis: path-sensitive return-predicate analysis over go/ssa", "DESIGN.md §5 C18"),
  "C20": ("Sound static decision of the structural cause of the timing statement: a wait event with the node's GetWait() duration lies exactly between a failed attempt and the next (unless wait<=0 is established), none before the first or after the last attempt, every wait selects on ctx.Done(), no time.Sleep. Elapsed time itself is the time package's contract.",
